@@ -194,6 +194,13 @@ def oracle(rep, case, out):
         return
     res = out['ok']
     ref = res.get('AA_number/asc')
+    if case['entry'] == 'bandpass.wpeak':
+        # "the" peak wavelength is defined only when the peak is attained at one sample: with an exact tie the first
+        # sample in the order given is returned, so the answer follows the order by design (C11: wpeak_reverse_of_unique)
+        _, bp, _ = fixtures()
+        y = bp(np.array([O.fl(x) for x in case['w']])).value
+        if np.sum(y == y.max()) > 1:
+            return
     for key, r in res.items():
         if ('err' in r) != ('err' in ref) or ('err' in r and r['err'] != ref['err']):
             rep.oracle_fail('equivariance:%s:%s:outcome' % (case['entry'], key.split('/')[0] + '/' + key.split('/')[1]),
